@@ -215,6 +215,9 @@ def check_op(sc, obs, opi, add):
         for (a0, a1, ta), (b0, b1, tb) in zip(ivs, ivs[1:]):
             if b0 < a1:
                 add('C13', 'one_live_instance_per_id', {'id': role, 'instances': [ta, tb], 'intervals': [(a0, a1), (b0, b1)]})
+    if full and not has_exit and not keep_alive_pool and o.get('exit_results'):
+        # the workers of this call were started for it and none of them ran an exit function: nothing of an earlier generation is shown
+        add('C11', 'exit_results_of_this_generation_only', {'got': o['exit_results'][:6], 'expected': []})
     if full and has_exit and not keep_alive_pool:
         ex = o.get('exit_results') or []
         got = collections.Counter(tuple(x) if isinstance(x, list) else x for x in ex)
